@@ -240,12 +240,17 @@ func (c *localCache) ReadCh(ctx context.Context, name string, opts *Opts, paths 
 				if (opts.Store == cachepb.Store_CONFIG || opts.Store == cachepb.Store_STATE) && !underAnyPath(e.P, paths) {
 					continue
 				}
-				outCh <- &Update{
+				select {
+				case <-ctx.Done():
+					// the reader is gone, do not block on the channel forever
+					return
+				case outCh <- &Update{
 					path:     e.P,
 					value:    e.V,
 					priority: e.Priority,
 					owner:    e.Owner,
 					ts:       int64(e.Timestamp),
+				}:
 				}
 			}
 		}
